@@ -177,6 +177,26 @@ Theorem C16_flat_view_is_nd :
                map cell_of_opt (ravel o d) = unsel (Some (ravel o tm)) (map CVal vals)).
 Proof. split; [exact sel_is_to_compressed|exact unsel_is_from_compressed]. Qed.
 
+(** Several publications through ONE adapter (the adapter's state is fixed during the info exchange
+    and only read afterwards): the outcome for the k-th publication is the outcome of regridding that
+    publication alone, whatever was published before or after it (in particular an earlier field
+    with not-a-number or garbage entries leaves no trace), for nearest and linear regridding with or
+    without filling, for ANY oracles. *)
+Theorem C16_publications_independent :
+  (forall (A : Type) nearest am down smask src_ma spts (pubs pubs' : list (list A)) tpts d k svals,
+     nth_error pubs k = Some svals -> nth_error pubs' k = Some svals ->
+     nth_error (regrid_nearest_seq nearest am down smask src_ma spts pubs tpts d) k
+       = Some (regrid_nearest nearest am down smask src_ma spts svals tpts d)
+     /\ nth_error (regrid_nearest_seq nearest am down smask src_ma spts pubs' tpts d) k
+       = nth_error (regrid_nearest_seq nearest am down smask src_ma spts pubs tpts d) k)
+  /\ (forall nearest lin fill am down smask src_ma spts (pubs pubs' : list (list Q)) tpts k svals,
+     nth_error pubs k = Some svals -> nth_error pubs' k = Some svals ->
+     nth_error (regrid_linear_seq nearest lin fill am down smask src_ma spts pubs tpts) k
+       = Some (regrid_linear nearest lin fill am down smask src_ma spts svals tpts)
+     /\ nth_error (regrid_linear_seq nearest lin fill am down smask src_ma spts pubs' tpts) k
+       = nth_error (regrid_linear_seq nearest lin fill am down smask src_ma spts pubs tpts) k).
+Proof. exact publications_independent. Qed.
+
 (** * Non-vacuity *)
 
 (** 2x2 source points in F order with the element at (0,0) masked (its value 999 must not appear),
@@ -249,6 +269,14 @@ Proof.
   simpl in Hi. lia.
 Qed.
 
+(** three publications through the linear adapter of the example above (garbage first): the last one
+    is regridded as if it were alone *)
+Example C16_publications_nonvacuous :
+  nth_error (regrid_linear_seq nearest_first lin_tri true None (Some KFlex) ex_lmask false ex_lspts
+               [[-5; 1; 400; 9]; [0; 0; 0; 0]; ex_lvals] ex_ltpts) 2
+  = Some (Done KFlex [CVal (640 # 512); CVal (256 # 128); CVal (3 # 2); CVal (5 # 2)]).
+Proof. vm_compute. reflexivity. Qed.
+
 Print Assumptions C16_nearest.
 Print Assumptions C16_nearest_instance.
 Print Assumptions C16_identity_layouts.
@@ -258,3 +286,4 @@ Print Assumptions C16_linear_affine.
 Print Assumptions C16_linear_affine_fill.
 Print Assumptions C16_masked_targets_stay_masked.
 Print Assumptions C16_flat_view_is_nd.
+Print Assumptions C16_publications_independent.
